@@ -13,6 +13,10 @@ partial def parseE (j : Json) : Option EPat := do
   | "any" => some .any
   | "cap" => some (.cap (← asNat a[1]!) (← parseE a[2]!))
   | "ref" => some (.ref (← asNat a[1]!))
+  | "and2" => some (.and2 (if isNull a[1]! then none else asNat a[1]!) (← parseE a[2]!)
+                          (if isNull a[3]! then none else asNat a[3]!) (← parseE a[4]!))
+  | "or2" => some (.or2 (if isNull a[1]! then none else asNat a[1]!) (← parseE a[2]!)
+                        (if isNull a[3]! then none else asNat a[3]!) (← parseE a[4]!))
   | _ => none
 
 def parsePairs (j : Json) : Option (List (Nat × Nat)) := do
